@@ -867,14 +867,31 @@ impl ExecCfg {
     }
 }
 
+thread_local! {
+    /// doc store block size of the indexes created by `Exec::create` on this thread (0 = the
+    /// default of 16 KB). A tiny block size gives every segment a multi-block `.store` file: the
+    /// compressor thread then receives several messages per segment and merges take the
+    /// block-stacking path.
+    static DOCSTORE_BLOCKSIZE: std::cell::Cell<usize> = const { std::cell::Cell::new(0) };
+}
+
+pub fn set_docstore_blocksize(n: usize) {
+    DOCSTORE_BLOCKSIZE.with(|c| c.set(n));
+}
+
 pub fn index_settings(cfg: &ExecCfg) -> IndexSettings {
-    IndexSettings {
+    let mut settings = IndexSettings {
         sort_by_field: cfg.sort.as_ref().map(|(f, o)| IndexSortByField {
             field: f.clone(),
             order: *o,
         }),
         ..Default::default()
+    };
+    let bs = DOCSTORE_BLOCKSIZE.with(|c| c.get());
+    if bs > 0 {
+        settings.docstore_blocksize = bs;
     }
+    settings
 }
 
 #[derive(Debug, Clone)]
